@@ -40,7 +40,7 @@ deriving DecidableEq, Repr
 
 inductive Op where
   | getTimes | getLonLat | getMask | getQualFlags | getCounts | getTelemetry
-  | dataset | calibrated | angles | readMeta
+  | dataset | calibrated | angles | readMeta | save
 deriving DecidableEq, Repr
 
 /-- symbolic outputs -/
@@ -54,6 +54,8 @@ inductive Out where
   | calibrated (date : Tm) (corr : Tm) (gate : Tm)
   | angles (t : Tm) (ll : Tm)
   | metaOut (m : Option Tm)
+  /-- `save()`: everything written to the legacy files comes from the final times -/
+  | saved (t : Tm)
 deriving DecidableEq, Repr
 
 /-- `get_times()` -/
@@ -100,6 +102,10 @@ def step (c : Cfg) (s : St) : Op → St × Out
     let s2 := doLonLat c s1
     (s2, .angles (curTimes s2) (curTimes s2))
   | .readMeta => (s, .metaOut s.mdata)
+  | .save =>
+    -- get_lonlat, calibrated channels, angles, quality summary; then the writer (which must not touch the caches)
+    let s1 := (doDataset c s).1
+    ({ s1 with mask := true }, .saved (curTimes s1))
 
 def run (c : Cfg) (s : St) : List Op → St
   | [] => s
@@ -110,7 +116,7 @@ def outAfter (c : Cfg) (h : List Op) (op : Op) : Out := (step c (run c {} h) op)
 
 /-- does the history contain an operation that computes coordinates? -/
 def computesCoords : Op → Bool
-  | .getLonLat | .dataset | .calibrated | .angles => true
+  | .getLonLat | .dataset | .calibrated | .angles | .save => true
   | _ => false
 
 end PygacModel.Acc
